@@ -1,3 +1,93 @@
-"""Kani harnesses over loop-free leaf functions copied verbatim (by vx) from /repo/src."""
+"""Kani harnesses over loop-free leaf functions of the REAL crate (path dependency on the repository under check).
+Full-domain symbolic inputs and no loops: a passing harness is a complete proof, not a bounded one."""
+import fcntl, os, re, shutil, subprocess, time
+
+VERIF = os.path.dirname(os.path.dirname(os.path.abspath(__file__)))
+
 def run(repo, work, x, tier):
-    return []
+    src = os.path.join(VERIF, 'kani_leaf')
+    if os.path.abspath(repo) == '/repo':
+        crate = src
+    else:
+        # scratch copy of the repository (self-test): build a private copy of the harness crate against it
+        if not os.path.exists(os.path.join(repo, 'Cargo.toml')):
+            return [{"name": "kani::" + h, "backend": "kani", "status": "undecided",
+                     "detail": "scratch repository without Cargo.toml: Kani harnesses not run"} for h in x['harnesses']]
+        crate = os.path.join(work, 'kani_leaf')
+        shutil.rmtree(crate, ignore_errors=True)
+        shutil.copytree(src, crate, ignore=shutil.ignore_patterns('target'))
+        ct = open(os.path.join(crate, 'Cargo.toml')).read().replace('path = "/repo"', 'path = "%s"' % os.path.abspath(repo))
+        open(os.path.join(crate, 'Cargo.toml'), 'w').write(ct)
+    lock = os.path.join(repo, 'Cargo.lock')
+    if os.path.exists(lock):
+        shutil.copy(lock, os.path.join(crate, 'Cargo.lock'))
+    res = []
+    env = dict(os.environ, CARGO_NET_OFFLINE='true')
+    lockf = open(os.path.join(VERIF, 'build', '.kani.lock'), 'w')
+    fcntl.flock(lockf, fcntl.LOCK_EX)
+    try:
+        for h in x['harnesses']:
+            cmd = ['cargo', 'kani', '--harness', h]
+            t0 = time.time()
+            try:
+                p = subprocess.run(cmd, cwd=crate, env=env, capture_output=True, text=True, timeout=x.get('timeout', 600))
+                out = p.stdout + p.stderr
+            except subprocess.TimeoutExpired:
+                res.append({"name": "kani::" + h, "backend": "kani", "status": "undecided", "detail": "timeout", "cmd": " ".join(cmd)})
+                continue
+            dt = int((time.time() - t0) * 1000)
+            ok = 'VERIFICATION:- SUCCESSFUL' in out and 'Complete - 1 successfully verified harnesses, 0 failures' in out
+            failed = 'VERIFICATION:- FAILED' in out
+            if ok:
+                res.append({"name": "kani::" + h, "backend": "kani (cbmc, full domain, loop-free)", "status": "ok",
+                            "detail": "harness %s verified" % h, "cmd": "cd kani_leaf && " + " ".join(cmd), "time_ms": dt})
+            elif failed:
+                descs = re.findall(r'Status: FAILURE\s*\n\s*- Description: "(.*?)"', out)
+                if h in x.get('fixed_inputs', {}):
+                    fi = x['fixed_inputs'][h]
+                    cex, rep = {"harness": h, "input": fi['input']}, run_replay(fi['bin'], [], repo, env)
+                else:
+                    cex, rep = counterexample(crate, env, h, repo)
+                res.append({"name": "kani::" + h, "backend": "kani (cbmc, full domain, loop-free)", "status": "fail",
+                            "msg": "harness refuted: " + "; ".join(descs[:3]), "detail": out[-3000:],
+                            "counterexample": cex, "replay": rep, "cmd": "cd kani_leaf && " + " ".join(cmd), "time_ms": dt})
+            else:
+                res.append({"name": "kani::" + h, "backend": "kani", "status": "undecided", "detail": out[-2000:], "cmd": " ".join(cmd)})
+    finally:
+        fcntl.flock(lockf, fcntl.LOCK_UN)
+    return res
+
+def run_replay(binname, argv, repo, env):
+    """builds /verif/replay against the repository under check and runs one of its binaries on the real code"""
+    rdir = os.path.join(VERIF, 'replay')
+    tdir = os.path.join(rdir, 'target')
+    if os.path.abspath(repo) != '/repo':
+        # private copy of the replay crate pointing at the scratch repository
+        rdir2 = os.path.join(os.path.abspath(repo), '.vx-replay')
+        shutil.rmtree(rdir2, ignore_errors=True)
+        shutil.copytree(rdir, rdir2, ignore=shutil.ignore_patterns('target'))
+        ct = open(os.path.join(rdir2, 'Cargo.toml')).read().replace('path = "/repo"', 'path = "%s"' % os.path.abspath(repo))
+        open(os.path.join(rdir2, 'Cargo.toml'), 'w').write(ct)
+        rdir, tdir = rdir2, os.path.join(rdir2, 'target')
+    b = subprocess.run(['cargo', 'build', '--release', '--offline', '--bin', binname], cwd=rdir, env=env, capture_output=True, text=True)
+    exe = os.path.join(tdir, 'release', binname)
+    if not os.path.exists(exe):
+        return "replay binary could not be built: " + b.stderr[-500:]
+    r = subprocess.run([exe] + argv, capture_output=True, text=True)
+    return (r.stdout + r.stderr).strip()[-1500:]
+
+def counterexample(crate, env, h, repo):
+    """asks Kani for a concrete counterexample and replays it on the real code through /verif/replay"""
+    try:
+        p = subprocess.run(['cargo', 'kani', '--harness', h, '-Z', 'concrete-playback', '--concrete-playback=print'],
+                           cwd=crate, env=env, capture_output=True, text=True, timeout=600)
+    except subprocess.TimeoutExpired:
+        return None, None
+    out = p.stdout + p.stderr
+    m = re.search(r'//\s*(-?\d+)(?:isize|usize)?\s*\n\s*vec!\[', out)
+    vals = re.findall(r'//\s*(-?\d+)\s*\n', out)
+    if not vals:
+        return None, None
+    x = vals[0]
+    rep = run_replay('leaf_literal', [x], repo, env)
+    return {"harness": h, "input": x}, rep
